@@ -51,11 +51,87 @@ CLAIMS["C25"] = dict(engine="filter", level="model_checking",
          "judged by the same predicate in TLC.",
     note="Trusted: TLC; the harness's reading of 'reported' = DataChangeNotification in that interval's publish response; source and "
          "server timestamps are written together. Percent deadband semantics are not judged (the server refuses it).")
+
+FN_NOTE = ("Trusted: TLC/SANY, the python driver, the harness's concretisation of abstract cases and re-abstraction of real results "
+           "(kept table-driven), catch_unwind / child processes for failures. Bounded: holds for the enumerated abstract space "
+           "recorded in the evidence file.")
+CLAIMS.update({
+    "C01": dict(engine="codec_rt", level="model_checking", note=FN_NOTE + " Not covered: the ~400 generated service structures beyond 4 representative messages, leaf-value fidelity (floats, DateTime ticks, UTF-8, Guid byte order).",
+                text="Codec.tla specifies the byte layout (Enc), predicted length, normalisation and a decoder state machine for the recursive "
+                     "built-in containers (Variant incl. empty arrays with/without dimensions, DataValue masks, DiagnosticInfo chains, "
+                     "ExtensionObject, NodeId/ExpandedNodeId encodings, LocalizedText, QualifiedName) over tiny leaf domains; TLC checks the "
+                     "specified codec (DesignOK, TreeOK) for every enumerated value and emits each as a case; the real byte_len/encode/decode "
+                     "run on it between two sentinels, twice; TLC judges predicted length = bytes written = bytes consumed, value = Norm(v)."),
+    "C02": dict(engine="codec_nest", level="model_checking", note=FN_NOTE + " Not covered: uniformly random byte strings as such (only seeded mutants of spec-generated encodings, reported separately); 2 MiB stack assumed.",
+                text="Codec.tla's decoder takes a depth lock on every recursive edge of the container grammar and checks length words before "
+                     "allocating; TLC enumerates all nesting paths and grammar cycles up to MaxDepth+2; each is repeated depth-1/depth/depth+1 "
+                     "and 200000 times and decoded by the real decoder in a child process with a counting allocator (default, minimal and "
+                     "depth-3 options); TLC judges outcome in {value, error}, nesting beyond the limit rejected, peak allocation within the "
+                     "specified bound."),
+    "C03": dict(engine="codec_lim", level="model_checking", note=FN_NOTE,
+                text="CodecLim.tla is the decision table accept iff len = -1 or 0 <= len <= L over construct x nesting position x declared "
+                     "length {L-1, L, L+1, -1, -2, 0, 2^31-1} x limit {0,1,5,default}; TLC enumerates it exhaustively, the harness writes the "
+                     "bytes and decodes with the real decoder under those DecodingOptions (chunk sizes through MessageChunk::decode and "
+                     "TcpCodec with a reader that records reads past the header); accept/reject is judged against the table by TLC."),
+    "C04": dict(engine="text04", level="model_checking", note=FN_NOTE + " Text is carried as code point sequences. No TLA+ parser is specified: the round trip is judged on the real printer+parser, printer injectivity is the design obligation.",
+                text="TextForms.tla enumerates NodeIds, ExpandedNodeIds, Guids, NumericRanges and DateTimes over namespaces {0,1,9,10,65535}, "
+                     "identifier payloads with ; = blanks line feeds and multi-byte characters, server indices, URIs with % and ;; TLC proves "
+                     "the specified Part 6 printers injective and emits every value; the real Display/FromStr pair runs on each and TLC judges "
+                     "Parse(Print(v)) = v on abstract values (DateTime at printed precision). For the no-panic half TLC enumerates all strings "
+                     "up to length 4 (5 thorough) over adversarial alphabets plus one-character mutants of printed forms; 7 real parsers "
+                     "must return a value or an error."),
+    "C05": dict(engine="text05", level="model_checking", note=FN_NOTE,
+                text="TextForms.tla enumerates relative paths (16 reference types incl. ns-qualified and numeric custom types x flags x target "
+                     "namespaces up to 65535 x every name over a 1 & / . < > : # ! and a non-ASCII letter, 1-4 elements exhaustively, up to 32 "
+                     "elements by TLC simulation); TLC proves the Annex A printer injective; the real printer/parser pair runs on each path "
+                     "and TLC judges the re-parsed path element by element; all strings up to length 4 (5) over the reserved alphabet parse "
+                     "without panicking."),
+    "C06": dict(engine="num", level="model_checking", note=FN_NOTE + " Ties accept both neighbours; cast to Boolean and Double-beyond-f32 to Float are not judged.",
+                text="NumLine.tla is an ordered line of 121 named boundary points of the eleven numeric types (extremes, x.5 neighbours, "
+                     "largest float-exact integers, NaN, +-inf) with the Part 4 implicit conversion table; TLC checks the specified "
+                     "convert/cast against the statement's predicates for every (source type, point, target type) and emits every case; the "
+                     "real Variant::convert and Variant::cast run on each and TLC judges with the same predicates."),
+    "C13": dict(engine="keyderiv", level="model_checking", note=FN_NOTE + " Cryptographic primitives are uninterpreted in the specification (a MAC/PRF term equals another iff its arguments are equal); openssl SHA-1/SHA-256 and a 30-line P_hash in the harness are trusted; hook SecureChannel::verif_derived_keys.",
+                text="KeyDerivation.tla models Part 6 Table 33 as symbolic P_SHA terms with the key lengths per policy; TLC checks, for all pairs of "
+                     "abstract nonces (lengths 0..64, repeated bytes), that the client's local keys are the server's remote keys and that "
+                     "distinct nonce pairs give distinct terms; for each case the real make_secure_channel_keys and client/server-role "
+                     "derive_keys run and TLC judges the re-abstracted key bytes against the terms (evaluated with an independent P_hash), "
+                     "cross-role agreement, and a chunk secured by one role verifying on the other."),
+    "C16": dict(engine="pwtoken", level="model_checking", note=FN_NOTE + " RSA is symbolic in the model; openssl EVP is trusted. A nonce variant that the plaintext body ends with is a valid token by the format, only no-panic is required there.",
+                text="PasswordToken.tla specifies the plaintext format len32|password|nonce and a decision table for crafted plaintexts (length "
+                     "prefix relation x password class x nonce relation x padding x key size); TLC checks the specified decision against the "
+                     "property and emits each case; the real legacy_password_encrypt/decrypt and decrypt_user_identity_token_password run on "
+                     "each (RSA 1024/2048, thorough 4096; PKCS#1, OAEP-SHA1, OAEP-SHA256), plus arbitrary ciphertext lengths; TLC judges "
+                     "round trip, nonce binding and error-not-panic."),
+    "C17": dict(engine="sigdata", level="model_checking", note=FN_NOTE + " Sign/Verify uninterpreted in the model.",
+                text="SignatureData.tla: Verify(sig, pk, cert|nonce) with uninterpreted Sign over mutation classes {none, certificate byte / "
+                     "other certificate, nonce byte / truncated / extended / other, signature byte / truncated / extended, other signer} x "
+                     "policy x key size; TLC checks the specified verdict and emits each class; the harness applies the class at EVERY byte "
+                     "position of the region with 3 masks to real create_signature_data output and reports the set of verify outcomes; TLC "
+                     "judges Good iff unmutated."),
+    "C18": dict(engine="certtrust", level="model_checking", note=FN_NOTE + " The wall clock is assumed to lie between 2002 and 2097 (validity periods of the minted certificates).",
+                text="CertTrust.tla: state = trusted / rejected directories as sets of certificate files, action Validate(cert, flags) with verdict "
+                     "and store effects, and the property exactly as stated; TLC checks all combinations (directory content absent / same / "
+                     "different bytes, trust-unknown, skip-verify, check-time, policy x key length, validity period, host, URI) and two-step "
+                     "histories, emitting each; the real CertificateStore runs each on a scratch PKI directory with minted certificates; TLC "
+                     "judges verdict class and directory effects."),
+    "C39": dict(engine="like+ops", level="model_checking", note=FN_NOTE + " Hooks expose the private where-clause evaluator and LIKE matcher. Tolerance sets where Part 4 leaves the result open.",
+                text="Like.tla defines the LIKE pattern language compositionally (% any run, _ exactly one, [] lists, escapes) and Operators.tla "
+                     "the Part 4 operator semantics with NULL handling and implicit conversion via NumLine; TLC checks the specified matcher "
+                     "and evaluator (and shows the pinned _ -> ? deviation as a counterexample), enumerates all patterns/strings up to the "
+                     "bound and clauses incl. malformed ones (operand counts 0..4, out-of-range / looping element operands, attribute "
+                     "operands, Not-chains); the real matcher and evaluator run on each; TLC judges result and no-panic."),
+})
+
 NOT_APPLICABLE = {
     "C41": "identity of a third-party YAML serializer over configuration records: no state, transition or case analysis for a TLA+ specification to own, and TLC cannot enumerate the string space that matters (DESIGN.md section 5)",
     "C42": "encode/decode fidelity of serde implementations with identity as the only oracle: outside what a TLA+ model decides (DESIGN.md section 5)",
 }
 ENGINES = [
+    {"name": "h_codec", "path": "/verif/h_codec", "serves_properties": ["C01", "C02", "C03"], "kind_free_text": "concretises Codec.tla / CodecLim.tla cases as real values and bytes; child processes + counting allocator"},
+    {"name": "h_text", "path": "/verif/h_text", "serves_properties": ["C04", "C05"], "kind_free_text": "prints and parses TextForms.tla values with the real Display/FromStr implementations"},
+    {"name": "h_num", "path": "/verif/h_num", "serves_properties": ["C06", "C39"], "kind_free_text": "maps NumLine points to Rust numbers, runs Variant::convert/cast; runs the real LIKE matcher and where-clause evaluator"},
+    {"name": "h_crypto", "path": "/verif/h_crypto", "serves_properties": ["C13", "C16", "C17", "C18"], "kind_free_text": "real key derivation, password tokens, signature data and certificate store on minted keys/certificates"},
     {"name": "filter", "path": "/verif/harness/src/e_filter.rs", "serves_properties": ["C25"],
      "kind_free_text": "runs each (filter, DataValue sequence) case of spec/Filter.tla on a real monitored item; judged by spec/TraceFilter.tla"},
     {"name": "revise", "path": "/verif/harness/src/e_revise.rs", "serves_properties": ["C23"],
